@@ -2634,89 +2634,107 @@ void Analyser::AnalyserImpl::analyseModel(const ModelPtr &model)
     }
 
     // Check that the variables that were marked as external were rightly so.
+    // Note: the variable of integration is dealt with now (so that it is not
+    //       treated as an external variable when checking our equations),
+    //       while the other variables are dealt with once our equations have
+    //       been checked, i.e. once we know for sure which variable is the
+    //       primary variable (it is the one in the component in which the
+    //       variable is computed).
 
-    for (const auto &primaryExternalVariable : primaryExternalVariables) {
-        std::string description;
-        auto isVoi = (mModel->mPimpl->mVoi != nullptr)
-                     && (primaryExternalVariable.first == mModel->mPimpl->mVoi->variable());
-        auto equivalentVariableCount = primaryExternalVariable.second.size();
-        auto hasPrimaryVariable = std::find(primaryExternalVariable.second.begin(),
-                                            primaryExternalVariable.second.end(),
-                                            primaryExternalVariable.first)
-                                  != primaryExternalVariable.second.end();
+    auto checkExternalVariables = [&](bool voiOnly) {
+        for (const auto &primaryExternalVariable : primaryExternalVariables) {
+            std::string description;
+            auto isVoi = (mModel->mPimpl->mVoi != nullptr)
+                         && (primaryExternalVariable.first == mModel->mPimpl->mVoi->variable());
 
-        if (isVoi || (equivalentVariableCount > 1) || !hasPrimaryVariable) {
-            description += (equivalentVariableCount == 2) ? "Both " : "";
-
-            for (size_t i = 0; i < equivalentVariableCount; ++i) {
-                if (i != 0) {
-                    description += (i != equivalentVariableCount - 1) ? ", " : " and ";
-                }
-
-                auto variableString = ((i == 0) && (equivalentVariableCount != 2)) ?
-                                          std::string("Variable") :
-                                          std::string("variable");
-
-                description += variableString + " '" + primaryExternalVariable.second[i]->name()
-                               + "' in component '" + owningComponent(primaryExternalVariable.second[i])->name()
-                               + "'";
+            if (isVoi != voiOnly) {
+                continue;
             }
 
-            Issue::ReferenceRule referenceRule;
+            auto primaryVariable = voiOnly ?
+                                       primaryExternalVariable.first :
+                                       Analyser::AnalyserImpl::internalVariable(primaryExternalVariable.first)->mVariable;
+            auto equivalentVariableCount = primaryExternalVariable.second.size();
+            auto hasPrimaryVariable = std::find(primaryExternalVariable.second.begin(),
+                                                primaryExternalVariable.second.end(),
+                                                primaryVariable)
+                                      != primaryExternalVariable.second.end();
 
-            if (isVoi) {
-                description += (equivalentVariableCount == 1) ?
-                                   " is marked as an external variable, but it is" :
-                                   " are marked as external variables, but they are";
+            if (isVoi || (equivalentVariableCount > 1) || !hasPrimaryVariable) {
+                description += (equivalentVariableCount == 2) ? "Both " : "";
 
-                if ((equivalentVariableCount == 1) && hasPrimaryVariable) {
-                    description += " the";
+                for (size_t i = 0; i < equivalentVariableCount; ++i) {
+                    if (i != 0) {
+                        description += (i != equivalentVariableCount - 1) ? ", " : " and ";
+                    }
+
+                    auto variableString = ((i == 0) && (equivalentVariableCount != 2)) ?
+                                              std::string("Variable") :
+                                              std::string("variable");
+
+                    description += variableString + " '" + primaryExternalVariable.second[i]->name()
+                                   + "' in component '" + owningComponent(primaryExternalVariable.second[i])->name()
+                                   + "'";
+                }
+
+                Issue::ReferenceRule referenceRule;
+
+                if (isVoi) {
+                    description += (equivalentVariableCount == 1) ?
+                                       " is marked as an external variable, but it is" :
+                                       " are marked as external variables, but they are";
+
+                    if ((equivalentVariableCount == 1) && hasPrimaryVariable) {
+                        description += " the";
+                    } else {
+                        description += " equivalent to variable '" + primaryVariable->name()
+                                       + "' in component '" + owningComponent(primaryVariable)->name()
+                                       + "', the primary";
+                    }
+
+                    description += " variable of integration which cannot be used as an external variable.";
+
+                    referenceRule = Issue::ReferenceRule::ANALYSER_EXTERNAL_VARIABLE_VOI;
+
+                    // The variable of integration cannot be used as an external
+                    // variable, so stop treating it as such.
+
+                    auto voiInternalVariable = Analyser::AnalyserImpl::internalVariable(primaryVariable);
+
+                    voiInternalVariable->mIsExternal = false;
+                    voiInternalVariable->mDependencies.clear();
                 } else {
-                    description += " equivalent to variable '" + primaryExternalVariable.first->name()
-                                   + "' in component '" + owningComponent(primaryExternalVariable.first)->name()
-                                   + "', the primary";
+                    description += (equivalentVariableCount == 1) ?
+                                       " is marked as an external variable, but it is not a primary variable." :
+                                       " are marked as external variables, but they are";
+                    description += (equivalentVariableCount > 2) ? " all" : "";
+                    description += (equivalentVariableCount == 1) ? "" : " equivalent.";
+                    description += " Variable '" + primaryVariable->name()
+                                   + "' in component '" + owningComponent(primaryVariable)->name()
+                                   + "' is";
+                    description += hasPrimaryVariable ?
+                                       " the" :
+                                   (equivalentVariableCount == 1) ?
+                                       " its corresponding" :
+                                       " their corresponding";
+                    description += " primary variable and will therefore be the one used as an external variable.";
+
+                    referenceRule = Issue::ReferenceRule::ANALYSER_EXTERNAL_VARIABLE_USE_PRIMARY_VARIABLE;
                 }
 
-                description += " variable of integration which cannot be used as an external variable.";
+                auto issue = Issue::IssueImpl::create();
 
-                referenceRule = Issue::ReferenceRule::ANALYSER_EXTERNAL_VARIABLE_VOI;
+                issue->mPimpl->setDescription(description);
+                issue->mPimpl->setLevel(Issue::Level::MESSAGE);
+                issue->mPimpl->setReferenceRule(referenceRule);
+                issue->mPimpl->mItem->mPimpl->setVariable(primaryVariable);
 
-                // The variable of integration cannot be used as an external
-                // variable, so stop treating it as such.
-
-                auto voiInternalVariable = Analyser::AnalyserImpl::internalVariable(primaryExternalVariable.first);
-
-                voiInternalVariable->mIsExternal = false;
-                voiInternalVariable->mDependencies.clear();
-            } else {
-                description += (equivalentVariableCount == 1) ?
-                                   " is marked as an external variable, but it is not a primary variable." :
-                                   " are marked as external variables, but they are";
-                description += (equivalentVariableCount > 2) ? " all" : "";
-                description += (equivalentVariableCount == 1) ? "" : " equivalent.";
-                description += " Variable '" + primaryExternalVariable.first->name()
-                               + "' in component '" + owningComponent(primaryExternalVariable.first)->name()
-                               + "' is";
-                description += hasPrimaryVariable ?
-                                   " the" :
-                               (equivalentVariableCount == 1) ?
-                                   " its corresponding" :
-                                   " their corresponding";
-                description += " primary variable and will therefore be the one used as an external variable.";
-
-                referenceRule = Issue::ReferenceRule::ANALYSER_EXTERNAL_VARIABLE_USE_PRIMARY_VARIABLE;
+                addIssue(issue);
             }
-
-            auto issue = Issue::IssueImpl::create();
-
-            issue->mPimpl->setDescription(description);
-            issue->mPimpl->setLevel(Issue::Level::MESSAGE);
-            issue->mPimpl->setReferenceRule(referenceRule);
-            issue->mPimpl->mItem->mPimpl->setVariable(primaryExternalVariable.first);
-
-            addIssue(issue);
         }
-    }
+    };
+
+    checkExternalVariables(true);
 
     // Analyse our different equations' units to make sure that everything is
     // consistent.
@@ -2799,6 +2817,8 @@ void Analyser::AnalyserImpl::analyseModel(const ModelPtr &model)
             }
         }
     } while (relevantCheck);
+
+    checkExternalVariables(false);
 
     // Make sure that our variables are valid.
 
